@@ -304,6 +304,19 @@ func cliC07(scratch string, part *h.Partial) map[string]any {
 			}
 		}
 	}
+	// cycles through a deferred task call: the failure of a deferred command is ignored by definition (C14), so the
+	// invocation may end with 0; what C07 demands here is that it ends
+	for _, mode := range []string{"once", "when_changed", "always"} {
+		top := "version: '3'\nsilent: true\nrun: " + mode + "\ntasks:\n"
+		for name, body := range map[string]string{
+			"defer-mutual": "  a:\n    cmds:\n      - defer: {task: b}\n      - " + probe("a") + "\n  b:\n    cmds:\n      - task: a\n",
+			"defer-self":   "  a:\n    cmds:\n      - defer: {task: a}\n      - " + probe("a") + "\n",
+			"defer-dep":    "  a:\n    cmds:\n      - defer: {task: b}\n      - " + probe("a") + "\n  b:\n    deps: [a]\n",
+		} {
+			cases = append(cases, cliCase{name: name + " run=" + mode, files: map[string]string{"Taskfile.yml": top + body}, args: []string{"a"},
+				wantExit: []int{0, 201, 204}, mustRun: []string{"a"}, sig: "cycle=" + name + "/" + mode, limits: true, hang: true})
+		}
+	}
 	add("wildcard-cycle", "  a:\n    deps: ['w-1']\n  'w-*':\n    deps: ['w-{{index .MATCH 0}}']\n")
 	return runCliCases("C07", scratch, bin, cases, part)
 }
